@@ -159,6 +159,9 @@ func runC10(r *core.Run) {
 	}
 	var ts traceSet
 	for i := range obs {
+		if obs[i].Skipped {
+			continue // not executed: the run had already met many calls that do not return
+		}
 		o, op, c := &obs[i], &ops[i], &cases[opCase[i]]
 		if o.Bad() {
 			r.Violate("jpeg.ScanJPEG:"+o.BadKind()+"@"+o.Site+":lead="+c.Lead, fmt.Sprintf("%s %s%s%s", o.BadKind(), o.Panic, o.Crash, o.Stall), replayOf(op, o, c))
